@@ -65,14 +65,23 @@ MUTANTS = {
                 effects |= Effects::PostKeyRangeExtern
             }
 """, """""", ["C15"]),
- "opcodes-swapped": ("crates/asm-spec/asm.yml", """        BitAnd:
-          opcode: 0x1A""", """        BitAnd:
-          opcode: 0x1B""", ["C13"]),
+ "opcodes-swapped": ("crates/asm-spec/asm.yml", ["""        BitAnd:
+          opcode: 0x1A
+          short: BAND""", """        BitOr:
+          opcode: 0x1B
+          short: BOR"""], ["""        BitOr:
+          opcode: 0x1A
+          short: BOR""", """        BitAnd:
+          opcode: 0x1B
+          short: BAND"""], ["C13"]),
  "d6-revert": ("crates/types/src/solution/decode.rs", """    if bytes.len() <= key_end {""", """    if bytes.len() < key_end {""", ["C06"]),
  "d7-revert": ("crates/check/src/solution.rs", """            let num_values = num_values.min(Memory::SIZE_LIMIT / 2 + 1);""", """""", ["C06"]),
  "lock-guard-dropped": ("crates/lock/src/lib.rs", """        f(&mut self.data.lock().expect("Mutex was poisoned"))""", """        #[allow(unsafe_code)]
         {
-            let p: *mut T = &mut *self.data.lock().expect("Mutex was poisoned");
+            let p: *mut T = {
+                let mut g = self.data.lock().expect("Mutex was poisoned");
+                &mut *g as *mut T
+            };
             f(unsafe { &mut *p })
         }""", ["C20"]),
  "serde-bytecode-binary": ("crates/types/src/serde/bytecode.rs", """    if s.is_human_readable() {
